@@ -54,7 +54,9 @@ func step(h *sh.H, rec *recorder, c M, first bool, prevIdx uint64, keys, prefixe
 	dumpBefore := sh.Dump(h.Store())
 	fired := h.WatchAll(keys, prefixes)
 	evBefore := h.Pub.Count()
+	h.FailCommit = c["fault"] == "yes"
 	res, _, err := h.Apply(c)
+	h.FailCommit = false
 	if err != nil {
 		fatal("apply %v: %v", c, err)
 	}
@@ -93,7 +95,7 @@ func replay(in, out string) {
 	fmt.Printf("{\"behaviours\":%d,\"events\":%d}\n", len(behs), rec.events)
 }
 
-func random(seed int64, n, length int, profile, out string) {
+func random(seed int64, n, length int, profile, out string, faults bool) {
 	f, err := os.Create(out)
 	if err != nil {
 		fatal("%v", err)
@@ -103,6 +105,8 @@ func random(seed int64, n, length int, profile, out string) {
 	for t := 0; t < n; t++ {
 		h := sh.New()
 		g := &sh.AbsGen{R: rand.New(rand.NewSource(seed*100003 + int64(t))), Store: h.Store, Profile: profile}
+		// fault schedule from a stream of its own: about one command in fourteen commits into a failing change-processing step
+		rf := rand.New(rand.NewSource(seed*7 + int64(t)*13 + 5))
 		for i := 0; i < length; i++ {
 			prev := g.Idx
 			c := g.Next()
@@ -110,6 +114,9 @@ func random(seed int64, n, length int, profile, out string) {
 			b, _ := json.Marshal(c)
 			var c2 M
 			_ = json.Unmarshal(b, &c2)
+			if faults && rf.Intn(14) == 0 {
+				c2["fault"] = "yes"
+			}
 			step(h, rec, c2, i == 0, prev, sh.WideKeys, sh.WidePrefixes)
 		}
 	}
@@ -128,12 +135,13 @@ func main() {
 	n := fs.Int("n", 10, "number of random histories")
 	length := fs.Int("len", 100, "length of each history")
 	profile := fs.String("profile", "kv", "kv|sess|txn")
+	faults := fs.Bool("faults", true, "inject commit-time failures (change-event generation) into some commands")
 	_ = fs.Parse(os.Args[2:])
 	switch os.Args[1] {
 	case "replay":
 		replay(*in, *out)
 	case "random":
-		random(*seed, *n, *length, *profile, *out)
+		random(*seed, *n, *length, *profile, *out, *faults)
 	default:
 		fatal("unknown mode %s", os.Args[1])
 	}
